@@ -60,6 +60,7 @@ FRIEND_WRITES = {
     ("Definition", "Instance", "_reference"): "Definition._clone_rip_and_replace redirects cloned children",
     ("Netlist", "Instance", "_reference"): "Netlist._clone redirects the cloned stand-alone top instance",
     ("Netlist", "OuterPin", "_inner_pin"): "Netlist._clone redirects the cloned stand-alone top instance's pins",
+    ("Netlist", "Instance", "_is_top_instance"): "Netlist._clone flags the copy's top instance (the netlist owns the top-instance relation)",
 }
 
 
